@@ -40,23 +40,31 @@ def work(item):
     numenv.enable(extra_modules=[(adv, None), (acc, None)])
     symx.set_bv(None)
     symx.DIV_ZERO = 'poison'
-    nr, nv = 2, 3
+    # the constructor gets a *real* Layout ('flux_surface' ordering [0,3,1,2]).  Radius-dependent twist: the block of one rank
+    # of a 2x2 process grid (r and v_parallel both start at an offset, local index != global index != 0 for some items);
+    # no twist: a single process.
+    if twist_mode == 'radial':
+        nr, nv, roff, voff, nprocs = 4, 4, 2, 1, (2, 2)
+    else:
+        nr, nv, roff, voff, nprocs = 2, 3, 0, 0, (1, 1)
+    rg, vg = ridx + roff, vidx + voff            # global indices of the line advected by this item
     rvals = [Fr(1) + Fr(i, 2) for i in range(nr)]
-    twists = [Fr(0) if twist_mode == 'zero' else TWISTS[(i + 1) % 4] for i in range(nr)]
-    vvals = [Fr(-2), Fr(1, 2), Fr(3)]
+    twists = [Fr(0) if twist_mode == 'zero' else TWISTS[(i - roff + 1) % 4] for i in range(nr)]
+    vvals = [Fr(-1, 3)] * voff + [Fr(-2), Fr(1, 2), Fr(3)]
+
+    def real_layout(eta):
+        rank = [rg * nprocs[0] // nr, vg * nprocs[1] // nv]
+        L = m['layout'].Layout('flux_surface', list(nprocs), [0, 3, 1, 2], eta, rank)
+        assert L.starts[0] <= rg < L.ends[0] and L.starts[1] <= vg < L.ends[1]
+        return L, rg - int(L.starts[0]), vg - int(L.starts[1])
     dz = Fr(1, 2)
     qbreaks = [TWO_PI * Fr(i, nq) for i in range(nq + 1)]
     T = oracle_knots(qbreaks, tdeg, True, tpath)
-    bz = {Fr(0): Fr(1), Fr(3, 4): Fr(4, 5), Fr(5, 12): Fr(12, 13), Fr(8, 15): Fr(15, 17)}[twists[ridx]]
-    vel = vvals[vidx]
+    bz = {Fr(0): Fr(1), Fr(3, 4): Fr(4, 5), Fr(5, 12): Fr(12, 13), Fr(8, 15): Fr(15, 17)}[twists[rg]]
+    vel = vvals[vg]
     # dt range such that |displacement| <= cells * dz for the chosen (r, v)
     dtmax = Fr(cells) * dz / (abs(vel) * bz)
 
-    class FakeLayout:
-        inv_dims_order = (0, 2, 3, 1)          # dims_order (0,3,1,2): r at 0, v at 1, theta at 2, z at 3
-        starts = [0, 0, 0, 0]
-        ends = [nr, nv, nq, nz]
-        shape = (nr, nv, nq, nz)
     st = {}
 
     def body(ctx):
@@ -72,11 +80,12 @@ def work(item):
             # work item = one window of the displacement (in cells): keeps items small so that they run in parallel
             disp = z3.RealVal(-vel * bz) * dt
             ctx.assume(z3.And(disp >= z3.RealVal(window[0] * dz), disp <= z3.RealVal(window[1] * dz)))
-        fa = adv.FluxSurfaceAdvection(eta, [tb, zb], FakeLayout, SReal(dt), consts)
+        L, rl, vl = real_layout(eta)
+        fa = adv.FluxSurfaceAdvection(eta, [tb, zb], L, SReal(dt), consts)
         f = dist.symbolic_field('f', (nq, nz))
         f0 = f.copy()
         st.update(dt=dt, f0=f0, qpts=qpts, fa=fa)
-        fa.step(f, vidx, ridx)
+        fa.step(f, vl, rl)
         return f
 
     def replay(mdl, entry, fname):
@@ -98,11 +107,12 @@ def work(item):
                 def iota(r):
                     mp = {round(float(rv), 12): float(t * R0 / rv) for rv, t in zip(rvals, twists)}
                     return np.array([mp[round(float(x), 12)] for x in np.atleast_1d(r)])
-            fa = adv.FluxSurfaceAdvection(eta, [tb, zb], FakeLayout, float(dtv), FC)
+            L, rl, vl = real_layout(eta)
+            fa = adv.FluxSurfaceAdvection(eta, [tb, zb], L, float(dtv), FC)
             rng = np.random.RandomState(5)
             f = rng.rand(nq, nz) * 2 - 1
             fin = f.copy()
-            fa.step(f, vidx, ridx)
+            fa.step(f, vl, rl)
             exp = oracle_float(fin, qpts, float(dtv))
             err = float(np.max(np.abs(f - exp)))
         except Exception as e:
@@ -122,7 +132,7 @@ def work(item):
         import math
         mfl = math.floor(zdist / dz)
         shifts = [mfl + l for l in range(-2, 4)]
-        iota = twists[ridx] * R0 / rvals[ridx]
+        iota = twists[rg] * R0 / rvals[rg]
         out = np.empty((nq, nz))
         L = []
         for j, sj in enumerate(shifts):
@@ -169,7 +179,7 @@ def work(item):
             res['inconclusive'].append('path does not fix the stencil position %r' % (item[:8],))
             continue
         shifts = [mfl + l for l in range(-2, 4)]
-        iota = twists[ridx] * R0 / rvals[ridx]
+        iota = twists[rg] * R0 / rvals[rg]
         coefs = [SO.interpolant_coeffs(T, tdeg, True, nq, qpts, list(f0[:, i])) for i in range(nz)]
         L = []
         for j, sj in enumerate(shifts):
@@ -242,7 +252,7 @@ def work(item):
 
 CANARIES = [
     ('stencil centred one node too far left', 'adv', [("            np.arange(-self._zLagrangePts//2+1,\n                      self._zLagrangePts//2+1)[None, None, :]",
-                                                       "            np.arange(-self._zLagrangePts//2,\n                      self._zLagrangePts//2)[None, None, :] + 0*dt")]),
+                                                       "            np.arange(-self._zLagrangePts//2,\n                      self._zLagrangePts//2)[None, None, :]")]),
     ('weights and values paired in reverse', 'acc', [("            f[j, i] = coeffs[0]*vals[i, j, 0]\n            for k in range(1, len(coeffs)):\n                f[j, i] += coeffs[k]*vals[i, j, k]",
                                                      "            f[j, i] = coeffs[0]*vals[i, j, 0]\n            for k in range(1, len(coeffs)):\n                f[j, i] += coeffs[k]*vals[i, j, len(coeffs)-k] if k > 1 else coeffs[k]*vals[i, j, k]")]),
 ]
